@@ -434,7 +434,8 @@ class TFLiteSemantic:
                 )
             if op.ifm is not None and op.ifm.is_quantized():
                 ifm_scale = op.ifm.quantization.scale_f32
-                if np.any(np.isinf(ifm_scale / ofm_scale)):
+                # Scales can be per-axis vectors of different lengths: the largest ratio decides
+                if np.isinf(np.max(ifm_scale) / np.min(ofm_scale)):
                     return (
                         False,
                         f"IFM scale divided by OFM scale is infinite, ifm_scale={ifm_scale} ofm_scale={ofm_scale}",
